@@ -128,23 +128,6 @@ pub fn shape(v: &Value) -> String {
     }
 }
 
-pub fn kind_name(v: &Value) -> &'static str {
-    match v {
-        Value::Extant => "Extant",
-        Value::Int32Value(_) => "Int32",
-        Value::Int64Value(_) => "Int64",
-        Value::UInt32Value(_) => "UInt32",
-        Value::UInt64Value(_) => "UInt64",
-        Value::Float64Value(_) => "Float64",
-        Value::BooleanValue(_) => "Boolean",
-        Value::BigInt(_) => "BigInt",
-        Value::BigUint(_) => "BigUint",
-        Value::Text(_) => "Text",
-        Value::Record(_, _) => "Record",
-        Value::Data(_) => "Data",
-    }
-}
-
 pub fn depth_of(v: &Value) -> usize {
     match v {
         Value::Record(attrs, items) => {
